@@ -18,21 +18,22 @@ const maxPaths = 3000
 const maxInlineDepth = 4
 
 type Oblig struct {
-	Name   string
-	Kind   string
-	Fn     string
-	Where  string
-	PC     []PCItem
-	Goal   *F
-	Idx    []string
-	Side   bool // side obligation (no-wrap / convert-range): recorded, not a violation by itself
-	Cover  bool // satisfiability check (vacuity guard): expected sat
-	Canary bool // must be refuted
-	Excuse string
-	Values []string // terms to query from a model
+	Name     string
+	Kind     string
+	Fn       string
+	Where    string
+	PC       []PCItem
+	Goal     *F
+	Idx      []IdxT
+	Side     bool // side obligation (no-wrap / convert-range): recorded, not a violation by itself
+	Cover    bool // satisfiability check (vacuity guard): expected sat
+	Canary   bool // must be refuted
+	Excuse   string
+	Values   []string // terms to query from a model
 	ValNames []string
-	Res    SolveResult
-	Stage  string // proof | R1
+	Res      SolveResult
+	Stage    string // proof | R1
+	hasQ     bool
 }
 
 type Frame struct {
@@ -41,8 +42,8 @@ type Frame struct {
 	parent  *Frame
 	depth   int
 	ret     func(st *State, results []Val)
-	prefix  string // obligation name prefix for inlined frames
-	pre     *State // state at entry (for old())
+	prefix  string         // obligation name prefix for inlined frames
+	pre     *State         // state at entry (for old())
 	names   map[string]Val // let-bound names and parameters visible to specs
 	nopanic bool
 	inSpec  bool
@@ -76,6 +77,26 @@ type Exec struct {
 	iterMap    map[ssa.Value]Val
 	alloc0     string
 	canaryDone bool
+	idxLog     *[]IdxT           // collector of (index, sequence) pairs read while evaluating a quantifier body
+	probe      *[]string         // collector of sequences indexed by a probe variable (see seqsOf)
+	noWD       bool              // suppress well-definedness obligations (while assuming the function's own requires)
+	withQ      bool              // include raw quantified assumptions in queries (second attempt)
+	modelTerms map[string]string // names (parameters, lets) -> scalar terms whose values are asked from a model
+}
+
+func (x *Exec) recordModelTerm(name string, v Val) {
+	if x.modelTerms == nil {
+		x.modelTerms = map[string]string{}
+	}
+	switch v.K {
+	case KInt, KBool, KRef:
+		if v.S != "" && !strings.Contains(v.S, "?") {
+			x.modelTerms[name] = v.S
+		}
+	case KSlice:
+		x.modelTerms["len("+name+")"] = v.Len
+		x.modelTerms["cap("+name+")"] = v.Cap
+	}
 }
 
 type readRec struct {
@@ -252,18 +273,13 @@ func (x *Exec) prove(st *State, goal string) bool {
 	if goal == "false" {
 		return false
 	}
-	var as []string
-	for _, it := range st.pc {
-		if it.QF == nil && it.F != "" {
-			as = append(as, it.F)
-		}
-	}
-	key := strings.Join(as, "&") + "|-" + goal
+	o := &Oblig{PC: st.pc, Goal: atom(goal), Idx: st.idx}
+	q := x.buildQuery(o)
+	key := strings.Join(q.Asserts, "&") + "|-" + goal
 	if r, ok := x.proveCache[key]; ok {
 		return r
 	}
 	x.sideStats.asked++
-	q := &Query{Asserts: as, Goal: goal}
 	text := x.decls.render(q)
 	r := solveSide(text)
 	x.proveCache[key] = r
@@ -346,7 +362,7 @@ func (x *Exec) constVal(c *ssa.Const) Val {
 // ---------- function entry ----------
 
 type LoopInfo struct {
-	headers map[*ssa.BasicBlock]int          // header -> ordinal
+	headers map[*ssa.BasicBlock]int                      // header -> ordinal
 	body    map[*ssa.BasicBlock]map[*ssa.BasicBlock]bool // header -> blocks of the natural loop
 }
 
